@@ -70,3 +70,64 @@ theorem kequiv_simple (q : ValQuirks) (env : Env ν) : OM.KEquiv (keqSimple q en
     exact fun h1 h2 => h1.trans h2
 
 end Val
+
+/-! ### all strings (with escapes), under the unquote-based `CssString::eq` (since commit 5b7f338) -/
+namespace Val
+open Num
+variable {ν : Type} [NumCmpOps ν]
+
+/-- the current `CssString::eq` is exactly "equal after unquoting" -/
+theorem strEq_iff_unquote (s1 : List Nat) (q1 : Quotes) (s2 : List Nat) (q2 : Quotes) :
+    strEq false s1 q1 s2 q2 = (unquote s1 q1 == unquote s2 q2) := by
+  simp only [strEq, Bool.false_eq_true, if_false]
+  cases h : (unquote s1 q1 == unquote s2 q2)
+  · simp only [Bool.or_false, Bool.and_eq_false_imp, decide_eq_true_eq]
+    intro hq
+    rw [Bool.eq_false_iff]
+    intro hs
+    have hs' : s1 = s2 := by simpa using hs
+    subst hq; subst hs'
+    simp at h
+  · simp
+
+/-- atoms that may be keys: null, booleans, functions, and ANY string -/
+def V.atomKey : V ν → Bool
+  | .null | .tt | .ff | .fn _ | .str _ _ => true
+  | _ => false
+
+/-- what `==` looks at in an atom key: strings by their unquoted text -/
+def V.canonA : V ν → Canon
+  | .tt => .tt
+  | .ff => .ff
+  | .fn i => .fn i
+  | .str s q => .str (unquote s q)
+  | _ => .null
+
+theorem eq_atom (q : ValQuirks) (hq : q.strEqSameQuotesRaw = false) (env : Env ν) (a b : V ν)
+    (ha : a.atomKey = true) (hb : b.atomKey = true) :
+    V.eq q env a b = decide (a.canonA = b.canonA) := by
+  cases a <;> cases b <;> simp only [V.atomKey, Bool.false_eq_true] at ha hb <;>
+    simp [V.eq, V.canonA, hq]
+  · rename_i s1 q1 s2 q2
+    rw [strEq_iff_unquote]
+    by_cases h : unquote s1 q1 = unquote s2 q2 <;> simp [h]
+  · rename_i i j
+    by_cases h : i = j <;> simp [h]
+
+def AtomKey (ν : Type) := { x : V ν // x.atomKey = true }
+def keqAtom (q : ValQuirks) (env : Env ν) (a b : AtomKey ν) : Bool := V.eq q env a.1 b.1
+
+/-- `==` is an equivalence on null, booleans, functions and all strings (escapes included, any
+quote kinds), for every flag setting with the unquote-based string comparison. -/
+theorem kequiv_atom (q : ValQuirks) (hq : q.strEqSameQuotesRaw = false) (env : Env ν) :
+    OM.KEquiv (keqAtom q env) where
+  refl a := by simp [keqAtom, eq_atom q hq env a.1 a.1 a.2 a.2]
+  symm a b := by
+    simp only [keqAtom, eq_atom q hq env a.1 b.1 a.2 b.2, eq_atom q hq env b.1 a.1 b.2 a.2]
+    exact decide_eq_decide.mpr ⟨fun e => e.symm, fun e => e.symm⟩
+  trans a b c := by
+    simp only [keqAtom, eq_atom q hq env a.1 b.1 a.2 b.2, eq_atom q hq env b.1 c.1 b.2 c.2,
+      eq_atom q hq env a.1 c.1 a.2 c.2, decide_eq_true_eq]
+    exact fun h1 h2 => h1.trans h2
+
+end Val
